@@ -20,8 +20,11 @@ class Agg:
     def __init__(self, tag, kw, members, packed=False):
         self.tag, self.kw, self.members, self.packed = tag, kw, members, packed
 
-    def definition(self):
-        attr = ' __attribute__((packed))' if self.packed else ''
+    def definition(self, ref=False):
+        """C text; ref=True gives the spelling for the C11 reference compilers (GNU attribute syntax)"""
+        attr = ''
+        if self.packed:
+            attr = ' __attribute__((packed))' if ref else ' ' + (self.packed if isinstance(self.packed, str) else '__attribute__((packed))')
         return '%s%s %s { %s };' % (self.kw, attr, self.tag, ' '.join(m.decl + ';' for m in self.members))
 
     @property
@@ -50,6 +53,10 @@ def fmt_decl(ty, name, arr=''):
 def gen_agg(r, tag, earlier, features, prefix=''):
     kw = 'union' if r.random() < 0.2 else 'struct'
     packed = kw == 'struct' and 'packed' in features and r.random() < 0.15
+    if packed:
+        # every documented spelling of the attribute
+        packed = r.choice(['__attribute__((packed))', '__attribute__((__packed__))', '[[gnu::packed]]', '[[gnu::__packed__]]', '[[__gnu__::__packed__]]', '[[__gnu__::packed]]',
+                           '__attribute__((packed)) __attribute__((unused))', '[[gnu::packed, gnu::unused]]'])
     n = r.randrange(1, 9)
     members = []
     names = 0
